@@ -118,6 +118,60 @@ CLAIMED = {
              "Tie: histories on one real object compared bit for bit with fresh objects.",
         design_ref="DESIGN.md section 4, C13", note="Defect F2 (history and smoother switch survived a solve) repaired by a fix: commit; setup() is modelled as 'level right-hand sides are rebuilt'.",
         technique="Lean 4 proof (simulation between two runs of the loop) + differential histories"),
+    "C04": dict(
+        category="proof",
+        text="Lean 4 theorems: the residual is affine in x with the operator's entries (take_affine); if a CSR matrix carries exactly those "
+             "entries and no pivot vanishes, the vector returned by the map-level LU solve has zero residual at every node (C16.lu_solve "
+             "composed with take_affine); the operator is injective in Dirichlet mode under ellipticity, so both strategies' solutions "
+             "coincide.  Tie: the real CustomLU direct solvers (give and take, 1 and 4 threads): exact residual of the returned solution with "
+             "the model operator, and — through the friend hook — every entry of the assembled CSR matrices against the operator.",
+        design_ref="DESIGN.md section 4, C04", note="non-vanishing pivots of the assembled matrix in grid order are a hypothesis (follows from C05 by an unformalised principal-minor argument).",
+        technique="Lean 4 proof (linearity + LU correctness) + exact-residual correspondence and matrix read-out"),
+    "C06": dict(
+        category="proof",
+        text="Spec-level Lean model of the zebra sweep (sweep equations per phase).  Theorems: the exact discrete solution is a fixed point; "
+             "after a sweep the residual vanishes on the last colour; Dirichlet nodes carry the data; lines of one colour are decoupled "
+             "(nt even), hence the sweep is unique whenever the line blocks are injective — which is proved in Dirichlet mode from C05; the "
+             "sweep does not increase the energy norm of the error in Dirichlet mode (energy_full).  Tie: outputs of the real SmootherGive / "
+             "SmootherTake must satisfy the sweep equations in exact rational arithmetic.",
+        design_ref="DESIGN.md section 4, C06", note="the smoother C++ is tied by correspondence only (spec-level model); energy monotonicity across the origin inherits the C05 gap.",
+        technique="Lean 4 proof about the relaxation spec + defect check of the implementation's output"),
+    "C07": dict(
+        category="proof",
+        text="Lean 4 theorems about the extrapolated sweep spec: nodes of the next coarser grid keep their value, all other nodes satisfy their "
+             "sweep equation, the exact solution is a fixed point, the residual vanishes on the fine-only nodes of the last colour, relaxed "
+             "nodes of an even line are exactly its odd positions.  Tie: real ExtrapolatedSmootherGive / Take outputs; coarse nodes compared "
+             "bit for bit with the input.",
+        design_ref="DESIGN.md section 4, C07", note="spec-level model; bitwise invariance is an observation on the implementation.",
+        technique="Lean 4 proof about the relaxation spec + defect / bitwise check of the implementation's output"),
+    "C02": dict(
+        category="proof",
+        text="PARTIAL.  Proved: the load scaling of discretize_rhs_f is the mass-term scaling of the stencil (constants with f = beta*c are "
+             "reproduced at every row off the origin, with the exact defect 1/4 c (art(0,j+1) - art(0,j-1)) of the 7-point closure at the "
+             "origin row); Dirichlet rows reproduce the data; the right-hand-side program is source x load weight; for the circular geometry "
+             "the radial flux form is exact for linear-in-r data on any radial spacing.  NOT proved: the discretisation order.  Tie: level "
+             "right-hand sides of real setup() runs; oracle: observed error orders on three refinements, with and without extrapolation.",
+        design_ref="DESIGN.md section 4, C02", note="asymptotic order only measured (calibrated thresholds); F9 (wrong shipped source terms, open) is reported as known finding.",
+        technique="Lean 4 proof of consistency identities + rhs correspondence + order oracle"),
+    "C18": dict(
+        category="proof",
+        text="Lean 4 theorems over exact rationals and unbounded parameters: the anisotropic radial division (whole routine, every array "
+             "access checked in the model) never reads or writes out of bounds, never dereferences an iterator past the set, never passes a "
+             "negative count to std::advance or 0 to log2, for every refinement radius in [R0,Rmax] and every nr_exp > anisotropic_factor >= 1 "
+             "(radii outside are rejected with an exception); uniform divisions, midpoint refinement and divideBy2 refinement yield strictly "
+             "increasing radii from exactly R0 to exactly Rmax whose odd nodes are midpoints and which nest; chooseNumberOfLevels returns L >= 2 "
+             "with every level but the coarsest coarsenable, or throws.  Tie: the real constructor in a sanitised child process per tuple.",
+        design_ref="DESIGN.md section 4, C18", note="defect F6 repaired by a fix: commit; output spec of the anisotropic branch (monotone, endpoints) is tied by correspondence, not proved; iostream formatting exercised only.",
+        technique="Lean 4 proof (lattice invariant of the refinement passes, floor/log arithmetic) + sanitised differential correspondence"),
+    "C20": dict(
+        category="proof",
+        text="Lean 4 theorems about the decision model of option handling: every option tuple ends in a parser usage exit, an exception or a "
+             "run — the model never predicts undefined behaviour (uses C18.inbounds and levels_never_ub); a run implies an accepted test "
+             "case, caches for the take strategy, a generated grid and L >= 2 coarsenable levels with nr >= 5, nt >= 4 on the coarsest.  The "
+             "test-case table is regenerated from select_test_case.cpp on every run.  Tie: random option tuples through the real parser, "
+             "setup() and solve() in child processes (ASan/UBSan builds in the thorough tier).",
+        design_ref="DESIGN.md section 4, C20", note="PARTIAL: UB-freedom of spec-modelled C++ (smoother internals, assembly) rests on sanitizer runs; defects F3, F6, F12 repaired.",
+        technique="Lean 4 proof over a decision model + translator for the test-case table + process-level differential testing"),
 }
 
 PENDING_REASON = "not claimed yet: model and theorems for this property are still being built (see DESIGN.md section 7)"
